@@ -37,6 +37,79 @@ fn colr_v0_bytes(recs: &[(u16, u16, u16)], layers: &[(u16, u16)]) -> Vec<u8> {
     o
 }
 
+/// A COLRv1 table (no v0 records, no layer list) with base glyphs
+///  1 -> chain of `n` PaintTranslate -> PaintSolid(palette 7)
+///  2 -> PaintColrGlyph(2)                                    (self-cycle)
+///  3 -> PaintComposite(src = S, backdrop = PaintTranslate -> S), S = PaintSolid(palette 9) shared
+///  4 -> PaintColrGlyph(5)
+///  5 -> PaintComposite(src = PaintSolid(palette 11), backdrop = PaintGlyph(gid 8, PaintColrGlyph(4)))   (2-cycle 4 <-> 5)
+///  6 -> the same S as glyph 3 (two base glyphs sharing one root paint)
+fn colr_v1_graph(n: usize) -> Vec<u8> {
+    fn off24(o: &mut Vec<u8>, v: usize) {
+        o.extend_from_slice(&(v as u32).to_be_bytes()[1..]);
+    }
+    let nrec = 6usize;
+    let list_len = 4 + 6 * nrec;
+    let mut paints: Vec<u8> = vec![]; // positions relative to the BaseGlyphList start are list_len + index
+    let mut root = vec![0usize; 7];
+    // glyph 1: chain
+    root[1] = list_len + paints.len();
+    for _ in 0..n {
+        paints.push(14);
+        off24(&mut paints, 8);
+        paints.extend_from_slice(&[0, 1, 0, 2]);
+    }
+    paints.extend_from_slice(&[2, 0, 7, 0x40, 0]);
+    // glyph 2: self-cycle
+    root[2] = list_len + paints.len();
+    paints.extend_from_slice(&[11, 0, 2]);
+    // glyph 3: composite over a shared solid
+    root[3] = list_len + paints.len();
+    // layout: composite (8) | translate (8) | solid S (5)
+    paints.push(32);
+    off24(&mut paints, 16); // src -> S
+    paints.push(3);
+    off24(&mut paints, 8); // backdrop -> translate
+    paints.push(14);
+    off24(&mut paints, 8); // translate -> S
+    paints.extend_from_slice(&[0, 0, 0, 0]);
+    let s_pos = list_len + paints.len();
+    paints.extend_from_slice(&[2, 0, 9, 0x40, 0]);
+    // glyph 4: colr glyph 5
+    root[4] = list_len + paints.len();
+    paints.extend_from_slice(&[11, 0, 5]);
+    // glyph 5: composite(solid 11, PaintGlyph(8, colrglyph 4))
+    root[5] = list_len + paints.len();
+    // layout: composite (8) | solid (5) | paintglyph (6) | colrglyph (3)
+    paints.push(32);
+    off24(&mut paints, 8);
+    paints.push(3);
+    off24(&mut paints, 13);
+    paints.extend_from_slice(&[2, 0, 11, 0x40, 0]);
+    paints.push(10);
+    off24(&mut paints, 6);
+    paints.extend_from_slice(&[0, 8]);
+    paints.extend_from_slice(&[11, 0, 4]);
+    root[6] = s_pos;
+    let mut o = vec![];
+    o.extend_from_slice(&1u16.to_be_bytes());
+    o.extend_from_slice(&0u16.to_be_bytes());
+    o.extend_from_slice(&0u32.to_be_bytes());
+    o.extend_from_slice(&0u32.to_be_bytes());
+    o.extend_from_slice(&0u16.to_be_bytes());
+    o.extend_from_slice(&34u32.to_be_bytes()); // baseGlyphListOffset
+    for _ in 0..4 {
+        o.extend_from_slice(&0u32.to_be_bytes());
+    }
+    o.extend_from_slice(&(nrec as u32).to_be_bytes());
+    for g in 1..=nrec {
+        o.extend_from_slice(&(g as u16).to_be_bytes());
+        o.extend_from_slice(&(root[g] as u32).to_be_bytes());
+    }
+    o.extend_from_slice(&paints);
+    o
+}
+
 fn structured(colr: &Colr) -> (Vec<(u32, u32, u32)>, Vec<(u32, u32)>) {
     let recs = match colr.base_glyph_records() {
         Some(Ok(r)) => r.iter().map(|b| (b.glyph_id().to_u32(), b.first_layer_index() as u32, b.num_layers() as u32)).collect(),
@@ -94,6 +167,48 @@ pub fn run(cfg: &Config, s: &mut Session, r: &mut Rng) {
         }
         let got = v0_case(s, &colr, &gids);
         s.count(if got.contains(&0xFFFF) { "pal:v0-has-foreground" } else { "pal:v0-no-foreground" });
+    }
+    // 1b. synthetic COLRv1 paint graphs (the families of C13's generators, assembled byte by byte): chains of N nested
+    //     PaintTranslate ending in a PaintSolid around the nesting limit (N = 1 .. 70: both sides of 64), a self-cycle and a
+    //     2-cycle through PaintColrGlyph, a shared sub-DAG under a PaintComposite and under two base glyphs, PaintGlyph steps
+    let depths: Vec<usize> = if th { (1..=70).collect() } else { vec![1, 2, 10, 40, 61, 62, 63, 64, 65, 66, 70] };
+    for n in depths {
+        let bytes = colr_v1_graph(n);
+        let Ok(colr) = Colr::read(FontData::new(&bytes)) else { s.count("pal:v1-syn-unreadable"); continue };
+        for gids in [vec![1u32], vec![2], vec![3], vec![4], vec![5], vec![6], vec![1, 3, 4], vec![1, 2, 3, 4, 5, 6], vec![7, 9]] {
+            let mut gs: IntSet<GlyphId> = IntSet::empty();
+            for g in &gids {
+                gs.insert(GlyphId::new(*g));
+            }
+            let sorted: Vec<u32> = gs.iter().map(|g| g.to_u32()).collect();
+            let (mut ly, mut pl, mut vr) = (IntSet::<u32>::empty(), IntSet::<u16>::empty(), IntSet::<u32>::empty());
+            let ok = catch(|| colr.v1_closure(&mut gs, &mut ly, &mut pl, &mut vr)).is_ok();
+            let got: Vec<u32> = pl.iter().map(|p| p as u32).collect();
+            s.case("colr-v1pal", format!("c17.colr.v1pal {} G {}", hex(&bytes), join(&sorted)), if ok { join(&got) } else { "trap".into() });
+            let input = || format!("font=syn:colr-nest-{n} flags=0x0000 gids=[{}] unicodes=[]", join(&sorted));
+            // model-independent: what must be collected (completeness below the nesting limit, cycles and sharing harmless)
+            if gids.contains(&1) {
+                // the solid (palette 7) is the (n+1)-th paint of the chain: dispatched with nesting_level_left = 64 - n
+                if n <= 63 {
+                    s.count("pal:v1-nest:below-limit");
+                    s.oracle("v1-closure-complete-below-nesting-limit", got.contains(&7), input, || format!("depth {n}: palette 7 of the chain's solid not collected: {:?}", got));
+                } else {
+                    s.count(if got.contains(&7) { "pal:v1-nest:beyond-limit-still-collected" } else { "pal:v1-nest:beyond-limit-cut" });
+                }
+            }
+            if gids.contains(&2) {
+                s.oracle("v1-closure-terminates-on-cycles", ok, input, || "panic".into());
+            }
+            if gids.contains(&3) {
+                s.oracle("v1-closure-shared-subdag", got.contains(&9), input, || format!("shared solid 9 missing: {:?}", got));
+            }
+            if gids.contains(&4) || gids.contains(&5) {
+                s.oracle("v1-closure-2-cycle-collects-both", got.contains(&11), input, || format!("palette 11 behind the 2-cycle missing: {:?}", got));
+            }
+            if gids.contains(&6) {
+                s.oracle("v1-closure-shared-root-paint", got.contains(&9), input, || format!("{:?}", got));
+            }
+        }
     }
     // 2. corpus fonts: the closure API on the font's own COLR, and the plan's colr_palettes
     let mut files: Vec<std::path::PathBuf> = vec![];
